@@ -111,8 +111,8 @@ type Index struct {
 	headerPath        string
 	writer            *bufio.Writer
 	Primary           primary.PrimaryStorage
-	bucketLk          sync.RWMutex
-	flushLock         sync.Mutex
+	bucketLk          verifhook.RWMutex
+	flushLock         verifhook.Mutex
 	outstandingWork   types.Work
 	curPool, nextPool bucketPool
 	length            types.Position
